@@ -255,9 +255,12 @@ def check(prop_id, tier, seed, nproc=None, timeout=None):
             continue
         nd = sum(a["discards"].values())
         if failure is None and not errors:
-            if len(a["nontrivial"]) < part.floor.get(tier, 2):
+            floor = part.floor.get(tier, 2)
+            if tier == "thorough":  # never demand a higher non-trivial RATE than half of what the quick floor implies
+                floor = min(floor, int(0.5 * part.floor.get("quick", 2) * part.budget["thorough"] / max(part.budget["quick"], 1)))
+            if len(a["nontrivial"]) < floor:
                 problems.append("part %s: only %d non-trivial cases (floor %d) - generator collapsed"
-                                % (part.name, len(a["nontrivial"]), part.floor.get(tier, 2)))
+                                % (part.name, len(a["nontrivial"]), floor))
             if a["evals"] and nd / a["evals"] > part.max_discard:
                 problems.append("part %s: discard rate %.2f above ceiling %.2f" % (part.name, nd / a["evals"], part.max_discard))
 
